@@ -209,6 +209,13 @@ def law_c10_dcall(lines, exp):
         if e.startswith('err WrongParameterCount'):
             yield (k, line, e, 'a call within the registered arity with arguments of the documented kinds never answers WrongParameterCount')
 
+def law_eval_side(lines, exp):
+    """laws the harness evaluates on the crate next to an `eval` answer: every call event reaches its native function exactly once (NATIVE),
+    and an environment that was read before being rebound answers like one that was not (HISTORY)"""
+    for k, (line, e) in enumerate(zip(lines, exp)):
+        for tag, want in ((' ; NATIVE ', 'every call() event enters its native function exactly once'), (' ; HISTORY ', 'the bindings in force are the latest ones, under every spelling, whatever was looked up before')):
+            if tag in e: yield (k, line, e[e.index(tag) + 3:][:300], want)
+
 def law_tmrange(lines, exp):
     for k, (line, e) in enumerate(zip(lines, exp)):
         if not e.startswith('viol 0 '):
@@ -255,5 +262,5 @@ def law_script_c11(lines, exp):
         # no variable/call in result position can be told from the protocol line only for plain operator roots; the chkbool stream has the precise proviso
     return []
 
-LAWS = {'nd': law_nd, 'scanrange': law_scanrange, 'script_c05': law_script_c05, 'script_c10': law_script_c10, 'tmrange': law_tmrange, 'c10_dcall': law_c10_dcall, 'stable': law_stable, 'json_same': law_json_same, 'c05': law_c05, 'c06': law_c06, 'c10': law_c10, 'c10_opt': law_c10_opt, 'c11': law_c11,
+LAWS = {'eval_side': law_eval_side, 'nd': law_nd, 'scanrange': law_scanrange, 'script_c05': law_script_c05, 'script_c10': law_script_c10, 'tmrange': law_tmrange, 'c10_dcall': law_c10_dcall, 'stable': law_stable, 'json_same': law_json_same, 'c05': law_c05, 'c06': law_c06, 'c10': law_c10, 'c10_opt': law_c10_opt, 'c11': law_c11,
         'same': law_expect('same'), 'ok': law_ok, 'no_crash': law_no_crash}
